@@ -19,16 +19,29 @@ import (
 //                        closeSubscription event for the subscription's token
 //  events-do-not-match-state-change
 //                        a committed batch, applied to the previous query results, does not give the new ones
+//  (+ protocol sanity: framing, request index, publish-one)
 //
-// cause = subscribe-in-commit-publish-gap when the offending delivery is an event whose index is not
-// larger than the index of the snapshot the subscriber already applied (an event contained in the
-// snapshot, published after the snapshot was taken, re-delivered after it): DESIGN.md section 9, finding 11.
+// Every failure carries a cause computed from the observations; "unknown" unless it is one of
+//  subscribe-in-commit-publish-gap  the offending delivery is an event whose index is not larger than the
+//                                   index of the snapshot the subscriber already applied (an event contained
+//                                   in the snapshot, published after the snapshot was taken, delivered after it)
+//  restore-keeps-topic-buffer       the offending delivery is an event committed to a store that has since been
+//                                   replaced by Restore and published BEFORE the restore (it sat in a topic
+//                                   buffer that RefreshAllTopics does not drop), or the subscriber resumed on
+//                                   such a buffer without a snapshot
+//  restore-keeps-publish-queue      same, but the event was still in publishCh at the restore
+//  connect-native-flag-removed      a service instance registered with Connect.Native is re-registered without
+//                                   it: it leaves the connect query result but no event is emitted on the
+//                                   connect topic
+// A client hit by one of these keeps the cause for its later failures until it applies a new snapshot.
 
 type oBatch struct {
-	idx   uint64
-	evs   []Ev
-	close []int
-	epoch int
+	idx       uint64
+	evs       []Ev
+	close     []int
+	epoch     int
+	published bool
+	pubEpoch  int
 }
 
 type oHist struct {
@@ -52,7 +65,9 @@ type oClient struct {
 	lastIdx    uint64
 	delivered  []uint64
 	blocked    bool
-	epoch      int
+	epoch      int // store incarnation of the last snapshot applied
+	taint      string
+	view       []KV
 }
 
 func touches(ts TS, e Ev) bool {
@@ -91,7 +106,35 @@ func sameRows(a, b []KV) bool {
 	return reflect.DeepEqual(a, b)
 }
 
-func oracle(steps []Step) *Failure {
+// diffRows: the events that turn rows a into rows b
+func diffRows(t int, a, b []KV) []Ev {
+	var out []Ev
+	find := func(r []KV, s, i int) (int, bool) {
+		for _, x := range r {
+			if x.S == s && x.I == i {
+				return x.V, true
+			}
+		}
+		return 0, false
+	}
+	for _, x := range b {
+		if v, ok := find(a, x.S, x.I); !ok || v != x.V {
+			out = append(out, Ev{t, x.S, x.I, x.V})
+		}
+	}
+	for _, x := range a {
+		if _, ok := find(b, x.S, x.I); !ok {
+			out = append(out, Ev{t, x.S, x.I, 0})
+		}
+	}
+	return out
+}
+
+type evKey struct{ T, S, I int }
+
+func oracle(steps []Step, drained bool) []Failure {
+	var fails []Failure
+	seen := map[string]bool{}
 	queue := []*oBatch{}
 	epoch := 0
 	base := map[TS][]KV{}
@@ -99,6 +142,7 @@ func oracle(steps []Step) *Failure {
 	cur := map[TS][]KV{}
 	committed := []*oBatch{}
 	clients := map[int]*oClient{}
+	silentKeys := map[evKey]string{} // rows changed without an event (cause), until an event names them again
 	for _, ts := range allTS {
 		base[ts] = []KV{}
 		cur[ts] = []KV{}
@@ -112,21 +156,62 @@ func oracle(steps []Step) *Failure {
 		}
 		return rows
 	}
-	gapCause := func(c *oClient, k uint64) string {
+	batchAt := func(k uint64) *oBatch {
+		for i := len(committed) - 1; i >= 0; i-- {
+			if committed[i].idx == k {
+				return committed[i]
+			}
+		}
+		return nil
+	}
+	// cause of a wrong delivery at index k to client c
+	deliveryCause := func(c *oClient, k uint64) string {
+		if b := batchAt(k); b != nil && b.epoch < epoch {
+			if b.published && b.pubEpoch < epoch {
+				return "restore-keeps-topic-buffer"
+			}
+			return "restore-keeps-publish-queue"
+		}
 		if c.snapIdx > 0 && k <= c.snapIdx && c.epoch == epoch {
 			return "subscribe-in-commit-publish-gap"
 		}
 		return "unknown"
 	}
+	// cause of a wrong view: every differing row is one that changed without an event
+	viewCause := func(c *oClient, view, want []KV) string {
+		d := diffRows(c.ts.T, want, view)
+		if len(d) == 0 {
+			return "unknown"
+		}
+		cause := ""
+		for _, e := range d {
+			x, ok := silentKeys[evKey{e.T, e.S, e.I}]
+			if !ok || (cause != "" && cause != x) {
+				return "unknown"
+			}
+			cause = x
+		}
+		return cause
+	}
 	for i := range steps {
 		st := &steps[i]
-		fail := func(c int, kind, cause, msg string) *Failure {
-			return &Failure{Kind: kind, Cause: cause, Step: i, C: c, Msg: msg}
+		fail := func(c int, kind, cause, msg string) {
+			if cl := clients[c]; cl != nil {
+				if cause == "unknown" && cl.taint != "" {
+					cause = cl.taint
+				} else if cause != "unknown" {
+					cl.taint = cause
+				}
+			}
+			if !seen[kind+":"+cause] {
+				seen[kind+":"+cause] = true
+				fails = append(fails, Failure{Kind: kind, Cause: cause, Step: i, C: c, Msg: msg})
+			}
 		}
 		switch st.Op {
 		case "commit":
 			if st.Err != "" && st.Queued {
-				return fail(-1, "commit-error-but-published", "unknown", st.Err)
+				fail(-1, "commit-error-but-published", "unknown", st.Err)
 			}
 			var evs []Ev
 			if st.Queued {
@@ -134,11 +219,24 @@ func oracle(steps []Step) *Failure {
 				queue = append(queue, b)
 				committed = append(committed, b)
 				evs = st.Evs
+				for _, e := range evs {
+					delete(silentKeys, evKey{e.T, e.S, e.I})
+				}
 			}
 			for _, q := range st.Q {
 				want := applyEvs(q.TS, cur[q.TS], evs)
 				if !sameRows(want, q.Rows) {
-					return fail(-1, "events-do-not-match-state-change", "unknown",
+					cause := "unknown"
+					d := diffRows(q.TS.T, want, q.Rows)
+					// the instance written by this commit was connect-native and no longer is
+					if w := st.W; w != nil && w.K == "svc" && w.Kind == "" && q.TS.T == TConnect && len(d) == 1 &&
+						d[0].V == 0 && d[0].I == instID(w.Node, w.SID) {
+						cause = "connect-native-flag-removed"
+					}
+					for _, e := range d {
+						silentKeys[evKey{e.T, e.S, e.I}] = cause
+					}
+					fail(-1, "events-do-not-match-state-change", cause,
 						fmt.Sprintf("ts %v: previous rows %v + events %v != query %v", q.TS, cur[q.TS], evs, q.Rows))
 				}
 				cur[q.TS] = q.Rows
@@ -146,6 +244,7 @@ func oracle(steps []Step) *Failure {
 			}
 		case "restore":
 			epoch++
+			silentKeys = map[evKey]string{}
 			for _, q := range st.Q {
 				base[q.TS] = q.Rows
 				cur[q.TS] = q.Rows
@@ -158,11 +257,12 @@ func oracle(steps []Step) *Failure {
 			}
 		case "pub":
 			if st.Did != (len(queue) > 0) {
-				return fail(-1, "publish-one-mismatch", "unknown", fmt.Sprintf("did=%v queued=%d", st.Did, len(queue)))
+				fail(-1, "publish-one-mismatch", "unknown", fmt.Sprintf("did=%v queued=%d", st.Did, len(queue)))
 			}
-			if st.Did {
+			if st.Did && len(queue) > 0 {
 				b := queue[0]
 				queue = queue[1:]
+				b.published, b.pubEpoch = true, epoch
 				for _, t := range b.close {
 					for _, c := range clients {
 						if c.subscribed && !c.closed && c.tok == t && c.mustClose == "" {
@@ -177,14 +277,15 @@ func oracle(steps []Step) *Failure {
 				c = &oClient{ts: st.TS, tok: st.Tok, kind: st.CK}
 				clients[st.C] = c
 			}
+			c.subscribed = false
 			if unsupported := st.TS.S < 0 && st.TS.T != TConfig; unsupported != (st.Err != "") {
-				return fail(st.C, "subscribe-result", "unknown", fmt.Sprintf("wildcard unsupported=%v, error %q", unsupported, st.Err))
+				fail(st.C, "subscribe-result", "unknown", fmt.Sprintf("wildcard unsupported=%v, error %q", unsupported, st.Err))
 			}
 			if st.Err != "" {
 				continue
 			}
 			if st.ReqIdx != c.lastIdx {
-				return fail(st.C, "request-index", "unknown", fmt.Sprintf("request index %d, materializer index %d", st.ReqIdx, c.lastIdx))
+				fail(st.C, "request-index", "unknown", fmt.Sprintf("request index %d, materializer index %d", st.ReqIdx, c.lastIdx))
 			}
 			c.subscribed, c.closed, c.mustClose = true, false, ""
 			c.reqIdx, c.first, c.snapPhase = st.ReqIdx, true, st.ReqIdx == 0
@@ -199,98 +300,127 @@ func oracle(steps []Step) *Failure {
 				continue
 			}
 			c.blocked = false
+			if st.Out != "nosub" {
+				c.view = st.View
+			}
 			if c.mustClose != "" && st.Out != c.mustClose {
-				return fail(st.C, "missing-forced-close", "unknown", fmt.Sprintf("expected close %q, Next returned %q", c.mustClose, st.Out))
+				fail(st.C, "missing-forced-close", "unknown", fmt.Sprintf("expected close %q, Next returned %q", c.mustClose, st.Out))
+				c.mustClose = ""
 			}
 			switch st.Out {
 			case "force", "acl":
 				if c.mustClose == "" && !c.closed {
-					return fail(st.C, "spurious-close", "unknown", st.Out)
+					fail(st.C, "spurious-close", "unknown", st.Out)
 				}
 				c.closed, c.mustClose = true, ""
 				if c.kind == 0 {
 					c.lastIdx = 0
+					c.taint = ""
 				}
 				if st.CIdx != c.lastIdx {
-					return fail(st.C, "index-after-close", "unknown", fmt.Sprintf("materializer index %d, expected %d", st.CIdx, c.lastIdx))
+					fail(st.C, "index-after-close", "unknown", fmt.Sprintf("materializer index %d, expected %d", st.CIdx, c.lastIdx))
 				}
 				continue
 			case "block":
 				c.blocked = true
+				if c.first && !c.snapPhase && c.epoch != epoch && c.lastIdx > 0 && c.taint == "" {
+					// resumed (no snapshot, no reset) although its view was built from a replaced store
+					c.taint = "restore-keeps-topic-buffer"
+				}
 				continue
 			case "unsub", "nosub", "filtered":
 				continue
 			}
 			if st.HErr != "" {
-				return fail(st.C, "handler-error", "unknown", st.HErr)
+				fail(st.C, "handler-error", "unknown", st.HErr)
 			}
 			if c.closed {
-				return fail(st.C, "delivery-after-close", "unknown", st.Out)
+				fail(st.C, "delivery-after-close", "unknown", st.Out)
 			}
 			wasFirst := c.first
 			c.first = false
 			switch st.Out {
 			case "nstf":
 				if !wasFirst || c.reqIdx == 0 {
-					return fail(st.C, "unexpected-framing", "unknown", "NewSnapshotToFollow not first or on a fresh request")
+					fail(st.C, "unexpected-framing", "unknown", "NewSnapshotToFollow not first or on a fresh request")
 				}
 				c.snapPhase = true
 				c.lastIdx = 0
+				c.taint = ""
 				if st.CIdx != 0 || len(st.View) != 0 {
-					return fail(st.C, "reset-incomplete", "unknown", "view not reset by NewSnapshotToFollow")
+					fail(st.C, "reset-incomplete", "unknown", "view not reset by NewSnapshotToFollow")
 				}
 			case "eos":
 				if !c.snapPhase {
-					return fail(st.C, "unexpected-framing", "unknown", "EndOfSnapshot outside a snapshot")
+					fail(st.C, "unexpected-framing", "unknown", "EndOfSnapshot outside a snapshot")
 				}
 				c.snapPhase = false
 				c.snapIdx, c.start, c.haveStart, c.epoch = st.OIdx, st.OIdx, true, epoch
+				c.taint = ""
 				if st.CIdx != st.OIdx {
-					return fail(st.C, "index-not-set", "unknown", fmt.Sprintf("materializer index %d after EndOfSnapshot %d", st.CIdx, st.OIdx))
+					fail(st.C, "index-not-set", "unknown", fmt.Sprintf("materializer index %d after EndOfSnapshot %d", st.CIdx, st.OIdx))
 				}
 				if st.CIdx < c.lastIdx {
-					return fail(st.C, "index-regression", "unknown", fmt.Sprintf("snapshot index %d after %d", st.CIdx, c.lastIdx))
+					fail(st.C, "index-regression", "unknown", fmt.Sprintf("snapshot index %d after %d", st.CIdx, c.lastIdx))
 				}
 				c.lastIdx = st.CIdx
 				if want := contentAt(c.ts, st.CIdx); !sameRows(want, st.View) {
-					return fail(st.C, "view-mismatch", "unknown", fmt.Sprintf("after snapshot@%d view %v, query at that index %v", st.CIdx, st.View, want))
+					fail(st.C, "view-mismatch", viewCause(c, st.View, want), fmt.Sprintf("after snapshot@%d view %v, query at that index %v", st.CIdx, st.View, want))
 				}
 			case "ev":
 				for _, e := range st.OEvs {
 					if !touches(c.ts, e) {
-						return fail(st.C, "foreign-event", "unknown", fmt.Sprintf("event %v delivered to subscription on %v", e, c.ts))
+						fail(st.C, "foreign-event", "unknown", fmt.Sprintf("event %v delivered to subscription on %v", e, c.ts))
 					}
 				}
 				if c.snapPhase {
 					if st.CIdx != c.lastIdx {
-						return fail(st.C, "index-moved-in-snapshot", "unknown", "")
+						fail(st.C, "index-moved-in-snapshot", "unknown", "")
 					}
 					continue
 				}
 				if !c.haveStart { // resumed subscription
 					c.start, c.haveStart = c.reqIdx, true
+					if c.epoch != epoch && c.taint == "" {
+						c.taint = "restore-keeps-topic-buffer"
+					}
 				}
 				c.delivered = append(c.delivered, st.OIdx)
+				cause := deliveryCause(c, st.OIdx)
 				if st.CIdx != st.OIdx {
-					return fail(st.C, "index-not-set", "unknown", fmt.Sprintf("materializer index %d after event %d", st.CIdx, st.OIdx))
+					fail(st.C, "index-not-set", "unknown", fmt.Sprintf("materializer index %d after event %d", st.CIdx, st.OIdx))
 				}
 				if st.CIdx < c.lastIdx {
-					return fail(st.C, "index-regression", gapCause(c, st.OIdx),
+					fail(st.C, "index-regression", cause,
 						fmt.Sprintf("event@%d delivered after index %d (snapshot@%d)", st.OIdx, c.lastIdx, c.snapIdx))
 				}
 				c.lastIdx = st.CIdx
 				if want := contentAt(c.ts, st.CIdx); !sameRows(want, st.View) {
-					return fail(st.C, "view-mismatch", gapCause(c, st.OIdx),
+					if cause == "unknown" {
+						cause = viewCause(c, st.View, want)
+					}
+					fail(st.C, "view-mismatch", cause,
 						fmt.Sprintf("after event@%d (snapshot@%d) view %v, query at that index %v", st.CIdx, c.snapIdx, st.View, want))
 				}
 			}
 		}
 	}
-	// quiescence (only meaningful when the schedule ended with the drain)
-	if len(queue) == 0 {
-		for id, c := range clients {
-			if !c.subscribed || c.closed || !c.blocked || c.snapPhase || c.mustClose != "" {
+	// quiescence (only when the schedule ended with the drain)
+	if drained && len(queue) == 0 {
+		last := len(steps) - 1
+		for id := 0; id < 64; id++ {
+			c := clients[id]
+			if c == nil || !c.subscribed || c.closed || !c.blocked || c.snapPhase || c.mustClose != "" {
 				continue
+			}
+			fail := func(kind, cause, msg string) {
+				if cause == "unknown" && c.taint != "" {
+					cause = c.taint
+				}
+				if !seen[kind+":"+cause] {
+					seen[kind+":"+cause] = true
+					fails = append(fails, Failure{Kind: kind, Cause: cause, Step: last, C: id, Msg: msg})
+				}
 			}
 			if !c.haveStart {
 				c.start = c.reqIdx
@@ -308,9 +438,13 @@ func oracle(steps []Step) *Failure {
 				}
 			}
 			var got []uint64
+			cause := "unknown"
 			for _, k := range c.delivered {
 				if k > c.start {
 					got = append(got, k)
+					if b := batchAt(k); b != nil && b.epoch < epoch {
+						cause = deliveryCause(c, k)
+					}
 				}
 			}
 			if !reflect.DeepEqual(want, got) && !(len(want) == 0 && len(got) == 0) {
@@ -318,79 +452,13 @@ func oracle(steps []Step) *Failure {
 				if len(got) < len(want) {
 					kind = "skipped-event"
 				}
-				return &Failure{Kind: kind, Cause: "unknown", Step: len(steps) - 1, C: id,
-					Msg: fmt.Sprintf("subject %v: commits after index %d: %v, delivered: %v", c.ts, c.start, want, got)}
+				fail(kind, cause, fmt.Sprintf("subject %v: commits after index %d: %v, delivered: %v", c.ts, c.start, want, got))
+			}
+			if !sameRows(c.view, cur[c.ts]) {
+				fail("final-view-mismatch", viewCause(c, c.view, cur[c.ts]),
+					fmt.Sprintf("subject %v: view %v, current query %v", c.ts, c.view, cur[c.ts]))
 			}
 		}
 	}
-	return nil
-}
-
-// finalCheck: after quiescence every streaming client's view equals the current query result.
-func finalCheck(steps []Step) *Failure {
-	cur := map[TS][]KV{}
-	for _, ts := range allTS {
-		cur[ts] = []KV{}
-	}
-	type cl struct {
-		ts      TS
-		view    []KV
-		blocked bool
-		live    bool
-		snap    bool
-	}
-	clients := map[int]*cl{}
-	queued := 0
-	for i := range steps {
-		st := &steps[i]
-		switch st.Op {
-		case "commit", "restore":
-			for _, q := range st.Q {
-				cur[q.TS] = q.Rows
-			}
-			if st.Queued {
-				queued++
-			}
-		case "pub":
-			if st.Did {
-				queued--
-			}
-		case "sub":
-			clients[st.C] = &cl{ts: st.TS, live: st.Err == "", snap: true}
-			if st.ReqIdx > 0 {
-				clients[st.C].snap = false
-			}
-		case "unsub":
-			if c := clients[st.C]; c != nil {
-				c.live = false
-			}
-		case "next":
-			c := clients[st.C]
-			if c == nil || !c.live {
-				continue
-			}
-			c.blocked = st.Out == "block"
-			switch st.Out {
-			case "force", "acl", "unsub":
-				c.live = false
-			case "nstf":
-				c.snap = true
-			case "eos":
-				c.snap = false
-			}
-			if st.Out != "nosub" {
-				c.view = st.View
-			}
-		}
-	}
-	if queued != 0 {
-		return nil
-	}
-	for id, c := range clients {
-		if c.live && c.blocked && !c.snap && !sameRows(c.view, cur[c.ts]) {
-			return &Failure{Kind: "final-view-mismatch", Cause: "unknown", Step: len(steps) - 1, C: id,
-				Msg: fmt.Sprintf("subject %v: view %v, current query %v", c.ts, c.view, cur[c.ts])}
-		}
-	}
-	return nil
+	return fails
 }
